@@ -36,6 +36,8 @@ def run(ctx, idx):
     ctx.rule("C06.b", "Inputs play symmetric roles (no buffer or accumulator whose element type is pinned to one input while the others are cast into it): the input list is consumed only through sum, a fold with one binary function over [0] and [1:], stacking + layer-axis sort, len, or a zip of weights[i:] with arrays[i:] using the same i.")
     ctx.rule("C06.c", "FuzzySelectedUnion: after the ascending layer sort the Truest branch averages TopK(NumberToConsider), the Falsest branch BottomK(NumberToConsider); NumberToConsider is checked against the number of inputs before use.")
     ctx.rule("C06.d", "FuzzyXOr reads exactly the two truest layers of the sorted stack and guards the quotient whose divisor is Top(1) - FUZZY_MIN with a test Top(1) <= FUZZY_MIN selecting the constant FUZZY_MIN.")
+    ctx.rule("C06.g", "An operator is a function of the fields it is given: its execute keeps nothing between executions (no module-level table of stacks / results keyed by names, no cached helper) - two programs in one process, or one model loaded twice over different data, must not see each other's layers.")
+    R.no_kept_state(ctx, idx, "C06.g", OPERATORS, ": the operator returns the mean / maximum of another data set's layers")
     res = {d.cls.name: (d, r) for d, r in R.results(idx).values() if d.module.name.endswith("eems.fuzzy")}
     ctx.rule("C06.f", "Operators leave their operands alone: no in-place write (data or mask buffer) reaches an input.")
     ctx.rule("C06.e", "Missing cells combine as the definitions require: the result is missing wherever any input is (the returned mask covers every input's mask).")
